@@ -21,6 +21,7 @@ import (
 	"errors"
 	"fmt"
 	"io"
+	"net/http"
 	"sort"
 	"strings"
 
@@ -86,7 +87,7 @@ const decoyBytes = "XYZ"
 
 // runOps executes one script. With tr != nil every operation and its result
 // is appended to it.
-func runOps(c OpsCase, tr *[]string) (vs []viol) {
+func runOps(c OpsCase, tr *[]string, dim map[string]int64) (vs []viol) {
 	T := map[string]string{"limit": "LimitReadCloser/", "multi": "MultiReaderCloser/", "tee": "TeeReadCloser/"}[c.Stream]
 	m := len(c.Srcs)
 	orig := make([]*src, m)
@@ -109,7 +110,9 @@ func runOps(c OpsCase, tr *[]string) (vs []viol) {
 		if wantTerm == io.EOF {
 			d, term := delivered(evs)
 			want = append(want, data[:d]...)
-			wantTerm = term
+			if term != http.ErrBodyReadAfterClose { // a body its owner already read and closed: at its end
+				wantTerm = term
+			}
 		}
 	}
 	oversize := false
@@ -148,7 +151,7 @@ func runOps(c OpsCase, tr *[]string) (vs []viol) {
 	var yielded []byte
 	var decoys []*src
 	closeCalls, stops, wAtStop := 0, 0, -1
-	usedW, stopBeforeClose := false, false
+	usedW, stopBeforeClose, surfacedBody := false, false, false
 	seen := map[string]bool{}
 	add := func(key, what string) {
 		if !seen[key] {
@@ -198,6 +201,11 @@ func runOps(c OpsCase, tr *[]string) (vs []viol) {
 	// judge: the result of a read-type operation on a stream that has been
 	// neither stopped nor closed. eof = the stream signalled a normal end.
 	judge := func(eof bool, err error, drained bool) {
+		if errors.Is(err, http.ErrBodyReadAfterClose) {
+			// the property does not say whether this is the end of that source
+			// (Read) or a failure (WriteTo): both accepted, bytes are checked
+			return
+		}
 		if oversize {
 			st := c.Srcs[0].Style
 			switch {
@@ -272,6 +280,7 @@ func runOps(c OpsCase, tr *[]string) (vs []viol) {
 			before := len(yielded)
 			_, err := readOnce(int(op[1] - '0'))
 			logf("%s=(%q,%v)", op, yielded[before:], err)
+			surfacedBody = surfacedBody || errors.Is(err, http.ErrBodyReadAfterClose)
 			if live {
 				judge(err == io.EOF, err, false)
 			}
@@ -284,6 +293,7 @@ func runOps(c OpsCase, tr *[]string) (vs []viol) {
 			n, err := io.ReadFull(rd, p)
 			yielded = append(yielded, p[:n]...)
 			logf("ReadFull(%d)=(%q,%v)", rem, p[:n], err)
+			surfacedBody = surfacedBody || errors.Is(err, http.ErrBodyReadAfterClose)
 			if live {
 				judge(err == io.EOF || err == io.ErrUnexpectedEOF, err, false)
 			}
@@ -294,6 +304,7 @@ func runOps(c OpsCase, tr *[]string) (vs []viol) {
 				_, err = readOnce(2)
 			}
 			logf("drain=(%q,%v)", yielded[before:], err)
+			surfacedBody = surfacedBody || errors.Is(err, http.ErrBodyReadAfterClose)
 			if live {
 				judge(err == io.EOF, err, true)
 			}
@@ -303,6 +314,7 @@ func runOps(c OpsCase, tr *[]string) (vs []viol) {
 			_, err := io.Copy(&s, rd)
 			yielded = append(yielded, s.b...)
 			logf("io.Copy=(%q,%v)", s.b, err)
+			surfacedBody = surfacedBody || errors.Is(err, http.ErrBodyReadAfterClose)
 			if live {
 				judge(err == nil, err, true)
 			}
@@ -370,7 +382,7 @@ func runOps(c OpsCase, tr *[]string) (vs []viol) {
 		}
 		if closeCalls > 0 && !aborted {
 			for j, s := range orig {
-				if !c.Srcs[j].Closable || s.closes > 0 {
+				if !c.Srcs[j].Closable || s.closes > 0 || c.Srcs[j].Style.Term == "body" {
 					continue
 				}
 				k := T + "source-not-closed-after-Close"
@@ -385,6 +397,14 @@ func runOps(c OpsCase, tr *[]string) (vs []viol) {
 					k = T + "Read-source-not-closed-after-Close"
 				}
 				add(k, fmt.Sprintf("Close has been called, yet closable source [%d] was never closed", j))
+			}
+		}
+		for j, s := range orig {
+			// a body its owner already closed: once it has told the stream so and the
+			// stream took that as the end of the source (it did not surface the
+			// error), any Close by the stream is a close on top of the owner's
+			if c.Srcs[j].Style.Term == "body" && s.closesTold > 0 && !surfacedBody {
+				add(T+"already-closed-body-closed-again", fmt.Sprintf("source [%d] had been read and closed by its owner (its Read answers http.ErrBodyReadAfterClose, which the stream took as the end of that source) and the stream then closed it again (%s): %d closes in total, want exactly the owner's 1", j, op, 1+s.closes))
 			}
 		}
 		if c.Stream == "multi" {
@@ -412,16 +432,36 @@ func runOps(c OpsCase, tr *[]string) (vs []viol) {
 			break
 		}
 	}
+	if dim != nil {
+		for j, s := range orig {
+			if c.Srcs[j].Style.Term != "body" {
+				continue
+			}
+			if s.closes > s.closesTold {
+				dim[dimBodyUntold]++
+			}
+			if s.closesTold > 0 && surfacedBody {
+				dim[dimBodySurfaced]++
+			}
+		}
+	}
 	return vs
 }
+
+// The two ways in which the unchanged MultiReaderCloser closes a body that its
+// owner had already closed; neither is a violation (see NOTES.md), both are counted.
+const (
+	dimBodyUntold   = "accepted: owner-closed body closed by Close before it was read to its end (the stream cannot know yet)"
+	dimBodySurfaced = "accepted: owner-closed body closed by Close after WriteTo reported its ErrBodyReadAfterClose as an error (held like a failed source)"
+)
 
 // runOpsKeyed runs a script and, when it contains caller mutations, decides
 // which violations depend on them: the same script is run again without the
 // mutations (they cannot influence a stream that owns its list of sources), and
 // every clause that only breaks with them is reported under
 // caller-slice-aliased instead of under the clause's own key.
-func runOpsKeyed(c OpsCase, tr *[]string) []viol {
-	vs := runOps(c, tr)
+func runOpsKeyed(c OpsCase, tr *[]string, dim map[string]int64) []viol {
+	vs := runOps(c, tr, dim)
 	if vs == nil || c.Stream != "multi" {
 		return vs
 	}
@@ -437,7 +477,7 @@ func runOpsKeyed(c OpsCase, tr *[]string) []viol {
 	c0 := c
 	c0.Ops = plain
 	without := map[string]bool{}
-	for _, v := range runOps(c0, nil) {
+	for _, v := range runOps(c0, nil, nil) {
 		without[v.key] = true
 	}
 	const aliased = "MultiReaderCloser/caller-slice-aliased"
@@ -480,6 +520,12 @@ func opsDims(c OpsCase, dim map[string]int64) {
 	for _, s := range c.Srcs {
 		if s.Closable && s.CloseErr {
 			failing++
+		}
+	}
+	for _, s := range c.Srcs {
+		if s.Style.Term == "body" {
+			dim["cases_with_a_source_already_closed_by_its_owner"]++
+			break
 		}
 	}
 	dim["cases"]++
@@ -541,7 +587,7 @@ func opScripts(alpha []string, maxLen, maxS, maxM int) [][]string {
 // opSrcVariants: every source of length 0..maxLen (composition x ending
 // {io.EOF, error} x {alone, with the last chunk}; zero-length reads when zero
 // is set) x {not closable, closable, closable with a failing Close}.
-func opSrcVariants(maxLen int, zero, alwaysClosable bool) []OpSrc {
+func opSrcVariants(maxLen int, zero, alwaysClosable, body bool) []OpSrc {
 	var out []OpSrc
 	for l := 0; l <= maxLen; l++ {
 		nm := uint32(1)
@@ -550,8 +596,13 @@ func opSrcVariants(maxLen int, zero, alwaysClosable bool) []OpSrc {
 		}
 		for mask := uint32(0); mask < nm; mask++ {
 			chunks := Composition(l, mask)
-			for _, st := range Styles(len(chunks), false) {
+			for _, st := range Styles(len(chunks), body) {
 				if !zero && st.Zero >= 0 {
+					continue
+				}
+				if st.Term == "body" {
+					// a response body its owner has already closed: closable by nature
+					out = append(out, OpSrc{chunks, st, true, false})
 					continue
 				}
 				if !alwaysClosable {
@@ -576,7 +627,7 @@ func opsFamily(name string, cases []OpsCase, scripts [][]string) family {
 		}
 		for _, sc := range scripts {
 			c.Ops = sc
-			vs := runOpsKeyed(c, nil)
+			vs := runOpsKeyed(c, nil, u.dim)
 			u.evals++
 			if total > 0 {
 				u.nontrivial++
@@ -584,7 +635,7 @@ func opsFamily(name string, cases []OpsCase, scripts [][]string) family {
 			opsDims(c, u.dim)
 			if vs != nil {
 				var tr []string
-				runOps(c, &tr)
+				runOps(c, &tr, nil)
 				rep := opsReport{c, strings.Join(tr, "; ")}
 				rep.Ops = append([]string(nil), sc...)
 				u.addOps(vs, rep)
@@ -604,7 +655,7 @@ func (o opsReport) String() string { return o.OpsCase.String() + " -> " + o.trac
 func opsLimitFamily(maxN, maxLen int) family {
 	var cases []OpsCase
 	for n := 0; n <= maxN; n++ {
-		for _, s := range opSrcVariants(n+2, true, true) {
+		for _, s := range opSrcVariants(n+2, true, true, false) {
 			cases = append(cases, OpsCase{Family: "ops", Stream: "limit", N: n, Srcs: []OpSrc{s}})
 		}
 	}
@@ -613,7 +664,7 @@ func opsLimitFamily(maxN, maxLen int) family {
 
 func opsTeeFamily(maxL, maxLen int) family {
 	var cases []OpsCase
-	for _, s := range opSrcVariants(maxL, true, false) {
+	for _, s := range opSrcVariants(maxL, true, false, false) {
 		for _, w := range []string{"plain", "closer", "closer-err"} {
 			cases = append(cases, OpsCase{Family: "ops", Stream: "tee", Srcs: []OpSrc{s}, Writer: w})
 		}
@@ -622,7 +673,7 @@ func opsTeeFamily(maxL, maxLen int) family {
 }
 
 func opsMultiFamily(m, maxL, maxLen, maxM int) family {
-	vs := opSrcVariants(maxL, false, false)
+	vs := opSrcVariants(maxL, false, false, true)
 	var cases []OpsCase
 	idx := make([]int, m)
 	for {
